@@ -34,7 +34,14 @@ NameFails(r) ==
   /\ r.labels = a \o << <<>> >>
   /\ r.root = (a = <<>>)
   /\ r.wild = (a # <<>> /\ a[1] = <<42>>)
-  /\ IF r.k <= Len(a) THEN r.sup.out = "ok" /\ r.sup.name = WireOf(SubSeq(a, r.k + 1, Len(a))) ELSE r.sup.out = "none")
+  /\ IF r.k <= Len(a) THEN r.sup.out = "ok" /\ r.sup.name = WireOf(SubSeq(a, r.k + 1, Len(a))) ELSE r.sup.out = "none"
+  \* LabelBuf: the first labels of a and b (the empty label for the root) compare, hash and print like labels
+  /\ LET la == IF a = <<>> THEN <<>> ELSE a[1]  lb == IF b = <<>> THEN <<>> ELSE b[1] IN
+     /\ r.lbuf.eq = (LowerSeq(la) = LowerSeq(lb)) /\ r.lbuf.cmp = CmpSeq(la, lb, 1) /\ (r.lbuf.eq => r.lbuf.heq)
+     /\ r.lbuf.text = RenderLabel(la) /\ r.lbuf.len = Len(la) /\ r.lbuf.too_long /\ r.lbuf.max_ok
+  \* LowercaseName: the lower-cased name, printed and parsed like a name, and back to a Name unchanged
+  /\ r.lc.wire = WireOf(LowerName(a)) /\ r.lc.text = Render(LowerName(a)) /\ r.lc.back = r.lc.wire
+  /\ r.lc.parsed.out = "ok" /\ r.lc.parsed.name = WireOf(LowerName(a)))
 
 TextFails(r) ==
   LET p == ParseText(r.text) IN
